@@ -14,6 +14,8 @@ from . import common, tlaval
 DISABLE_SPELLINGS = ['DISABLE_DOCTEST', 'SCRIPT', 'UNSTABLE', 'FAILING', 'SLOW_DOCTEST', 'disable_doctest', 'Script: needs a display', 'unstable on slow machines',
                      'Failing', 'slow_doctest', ' DISABLE_DOCTEST', 'DISABLED']
 
+PKGS = ['json', 'email', 'xml', 'logging', 'unittest', 'importlib', 'concurrent', 'collections', 'html', 'http', 'urllib', 'wsgiref']
+
 HEADER = 'from harness.runlib import make_namespace as _mk\nT = []\nglobals().update(_mk(T))\nG = 1\n'
 
 
@@ -45,6 +47,9 @@ def kind_text(kind, i, rot=0):
         'swapout': ['>>> import sys, io', ">>> x = p(%d, 'o1')" % a, 'o1', '>>> sys.stdout = io.StringIO()'],
         'warns': ['>>> import warnings', ">>> warnings.warn('only a warning %d')" % a, ">>> x = p(%d, 'o1')" % a, 'o1'],
         'filters': ['>>> import warnings', ">>> warnings.simplefilter('error')", ">>> x = p(%d, 'o1')" % a, 'o1'],
+        # a requirement on a missing submodule of an existing package (unmet: nothing runs) / on that package (met)
+        'reqsub': ['>>> # xdoctest: +REQUIRES(module:%s.xdv_no_such_submodule)' % PKGS[rot % len(PKGS)], ">>> x = p(%d, 'o1')" % a, 'o1'],
+        'reqpkg': ['>>> # xdoctest: +REQUIRES(module:%s)' % PKGS[rot % len(PKGS)], ">>> x = p(%d, 'o1')" % a, 'o1'],
     }
     return t[kind]
 
@@ -52,7 +57,7 @@ def kind_text(kind, i, rot=0):
 def kind_trace(kind, i, env=1, named=False):
     """the statements (ids) that run when doctest i runs alone"""
     a, b = i * 10 + 1, i * 10 + 2
-    if kind in ('skipall', 'comment', 'trail', 'failcompile', 'faildirective'):
+    if kind in ('skipall', 'comment', 'trail', 'failcompile', 'faildirective', 'reqsub'):
         return []
     if kind == 'skippart':
         return [b]
@@ -63,7 +68,7 @@ def kind_stdout(kind, env=1):
     return {'pass': 'o1\n', 'failout': 'o1\n', 'failexc': '', 'failcompile': '', 'faildirective': '', 'skipall': '', 'skippart': 'o2\n', 'expexc': '', 'comment': '', 'disabled': 'o1\n',
             'disabledfail': 'o1\n', 'needell': 'o1 and more\n', 'bind': 'o1\n', 'probe': 'False\n', 'rebind': '5\n', 'readg': '1 1\n',
             'leaveskip': 'o1\n', 'leavereq': 'o1\n', 'reportstyle': 'o1\n', 'trail': 'a\n' if env == 1 else 'b\n', 'swapout': 'o1\n', 'warns': 'o1\n',
-            'filters': 'o1\n'}[kind]
+            'filters': 'o1\n', 'reqsub': '', 'reqpkg': 'o1\n'}[kind]
 
 
 def render_module(kinds, rot=0, layout='google'):
